@@ -224,6 +224,52 @@ def oracle_c13(cid, impl, m):
     return True
 
 
+def oracle_c16(cid, impl, m):
+    """Names survive the mapping unchanged and unaliased. The spec columns of the model line are
+    computed from the request alone (want/wantn/sc for rt, want/wqo/wexp for e2e), never through the
+    model's own mapping.
+    rt : err=none ⇒ ToTuple(FromTuple(b)) = b position-wise (rt = want; for tuples that set both
+         subject fields the subject set is dropped: rt = wantn), id classes = string classes
+         (Map(s)=Map(s') ⇔ s=s'), read-only and read-write mapper give the same ids, the read-only
+         mapper leaves keto_uuid_mappings byte-identical; err≠none ⇒ nothing inserted.
+    e2e: REST write ok ⇒ REST list = gRPC list = the written multiset, the list filtered by X and both
+         expands of X return exactly the written strings; the read API inserted no mapping."""
+    if "err" in impl:
+        if "sc" not in m or "wantn" not in m:
+            return None
+        if impl.get("rotbl") != "1":
+            return ("c16-readonly-inserted", "ReadOnlyMapper.FromTuple/ToTuple changed keto_uuid_mappings")
+        if impl.get("same") != "1":
+            return ("c16-id-unstable", "read-only and read-write mapper disagree on the ids (or on the error) of the same batch")
+        if impl["err"] != "none":
+            if impl.get("new") != "0":
+                return ("c16-error-inserted", f"FromTuple failed with {impl['err']} but inserted {impl.get('new')} mappings")
+            return True
+        if impl.get("ids") != m["sc"]:
+            return ("c16-aliased", "ids of the batch are not equal exactly where the strings are equal")
+        if impl.get("rt") != m["wantn"]:
+            return ("c16-roundtrip", "ToTuple(FromTuple(b)) differs from b")
+        if m.get("wf") == "1" and impl.get("rt") != m.get("want"):
+            return ("c16-roundtrip", "ToTuple(FromTuple(b)) differs from b")
+        if m.get("wf") != "1":
+            return None          # a tuple with both subject fields: outside "valid API tuples" (see report)
+        return True
+    if "wr" in impl:
+        if impl["wr"] != "ok":
+            return None if impl["wr"] == m.get("wr") else ("c16-write-status", f"write answered {impl['wr']}, expected {m.get('wr')}")
+        if "want" not in m:
+            return None
+        if impl.get("rdtbl") != "1":
+            return ("c16-readonly-inserted", "list/expand requests changed keto_uuid_mappings")
+        for k, w in (("rest", "want"), ("grpc", "want"), ("qo", "wqo"), ("exp", "wexp"), ("expg", "wexp")):
+            if impl.get(k) != m.get(w):
+                return ("c16-e2e-" + k, f"{k} does not return the written strings")
+        if m.get("wf") != "1":
+            return None
+        return True
+    return None
+
+
 ENGINE_RULE = ("configs from an OPL-shaped grammar (1-4 namespaces, related relations with plain and SubjectSet types, "
                "permissions over includes/permits/traverse/!/&&/||, rendered to OPL and loaded through the real parser, "
                "or legacy namespaces without relations), 0-54 tuples biased to declared relations, chains, cycles, duplicates; "
@@ -231,6 +277,38 @@ ENGINE_RULE = ("configs from an OPL-shaped grammar (1-4 namespaces, related rela
                "distinct = distinct protocol lines")
 
 PROPS = {
+    "C16": {
+        "lean_module": "Keto.Props.C16",
+        "theorems": ["Keto.C16_constants", "Keto.C16_batch_lookup", "Keto.C16_batch_lookup_all",
+                     "Keto.C16_roundtrip", "Keto.C16_roundtrip_pos", "Keto.C16_roundtrip_normalized",
+                     "Keto.C16_unaliased", "Keto.C16_unaliased_tuples", "Keto.C16_same_string_same_id",
+                     "Keto.C16_readonly_no_insert", "Keto.C16_error_no_insert", "Keto.C16_table_invariant",
+                     "Keto.C16_query_roundtrip", "Keto.C16_known_after_write", "Keto.C16_known_readonly",
+                     "Keto.C16_tree", "Keto.C16_seedOrder_perm"],
+        "streams": [{"name": "mapper", "n": {"quick": 300, "thorough": 1500}, "oracle": oracle_c16, "thorough_seeds": 3}],
+        "rule": ("batches of 1..250 API tuples (sizes 1/2/3, 49-51, 99-101, 149-151, 199-201, 249/250 emphasised, 40% uniform) in four "
+                 "modes: all names fresh and distinct (up to 500 distinct ids = 5 lookup pages), a pool of 1-8 adversarial names "
+                 "(heavy repeats, same name as object and subject), mixed, names already in the table plus new ones; names from an "
+                 "adversarial list (empty, spaces, separators : # @ ( ), NFC/NFD pairs, Cyrillic/Latin look-alikes, case and "
+                 "trailing-space variants, NUL, BOM, zero-width, RTL override, astral planes, SQL/JSON/URL metacharacters, "
+                 "UUID-looking names incl. the UUID text of another name, 10 kB names differing in one byte, byte strings that are "
+                 "not UTF-8 (direct mapper calls only)); 1 in 6 tuples uses one string as object and subject, 1 in 8 repeats an "
+                 "earlier tuple; 12% of the batches contain a nil tuple / a tuple without subject / an unknown namespace; "
+                 "3 of 4 cases: ReadOnlyMapper.FromTuple→ToTuple, then Mapper.FromTuple→ToTuple on in-memory sqlite with a dump "
+                 "of keto_uuid_mappings before/after; 1 of 4: REST PATCH/PUT → REST list, gRPC list, REST list filtered by object, "
+                 "REST and gRPC expand, field by field; a new database every 40 cases; "
+                 "non-trivial = more than one tuple, or object = subject; distinct = distinct protocol lines"),
+        "partial": "",
+        "assumptions": ["UUIDv5(network id, ·) is a parameter h of the model; C16_roundtrip / C16_unaliased assume h injective on the "
+                        "strings of the batch and of the table (InjOn, an explicit hypothesis; the example with a colliding h shows it is "
+                        "necessary); the model's concrete h in the driver is injective on the strings of the line",
+                        "the table invariants (primary key on id, rows written by the mapper) are hypotheses of the round trip, "
+                        "established for the empty table and preserved by every mapper operation (C16_table_invariant)",
+                        "REST/gRPC end-to-end cases use valid UTF-8 only (JSON replaces other bytes by U+FFFD, see C18); the store is "
+                        "taken as a multiset (C04); sqlite only",
+                        "a tuple that sets both subject_id and subject_set (JSON only) is outside 'valid API tuples': the mapper keeps "
+                        "subject_id and silently drops the subject set (model: ApiTuple.normalize; oracle answers None for such cases)"],
+    },
     "C13": {
         "lean_module": "Keto.Props.C13",
         "theorems": ["Keto.HT.C13_no_server_no_panic", "Keto.HT.C13_cells_nonempty", "Keto.HT.C13_malformed_rejected",
